@@ -103,7 +103,7 @@ let () =
        | ["E"] ->
          let h = List.rev !hl and o = List.rev !ops in
          let r = (match !st with
-             | "bloom" -> bloom_case ((h, !u), o)
+             | "bloom" -> bloom_case farith float_of_n fln ftrunc ((h, !u), o)
              | "cms" -> cms_case (((h, !u), !mx), o)
              | "hll" -> hll_case (h, o)
              | "cuckoo" -> ck_case ((h, !u), o)
@@ -114,6 +114,9 @@ let () =
              | "td" -> tdx_case farith float_of_bits_n bits_n_of_float flim o
              | "hllc" -> hllc_case farith float_of_n fln ftrunc o
              | "hser" -> hser_case o
+             | "mem" -> mem_case o
+             | "sizing" -> sizing_case farith float_of_n fln (fun x -> Obj.repr (Float.log2 (fl x))) (fun x -> Obj.repr (Float.ceil (fl x)))
+                             ftrunc (Obj.repr (Int64.float_of_bits 0x4005BF0A8B145769L)) float_of_bits_n o
              | s -> failwith ("unknown structure " ^ s)) in
          (match r with
           | None when !lim_missing > 0 -> Printf.printf "F 0 S 888 %d\n" !lim_missing
